@@ -200,6 +200,9 @@ func HarnessC13DecodeBig(kind int) {
 	buf := append([]byte{0}, b...)
 	d, err := parsePSIData(astikit.NewBytesIterator(buf))
 	vassert("C13.big.err", err == nil && len(d.Sections) == 1)
+	if err != nil || len(d.Sections) != 1 || d.Sections[0].Syntax == nil || d.Sections[0].Syntax.Data == nil {
+		return
+	}
 	c13CheckHeader(d.Sections[0], s, len(b)-3)
 	c13CheckData(d.Sections[0].Syntax.Data, s)
 	vreach("C13.big.end")
